@@ -9,6 +9,9 @@ use crate::registry::Dyn;
 pub mod c01;
 pub mod c02;
 pub mod c03;
+pub mod c04;
+pub mod c06;
+pub mod c07;
 pub mod c08;
 pub mod c09;
 pub mod c10;
@@ -16,7 +19,9 @@ pub mod c11;
 pub mod c12;
 pub mod c13;
 pub mod c14;
+pub mod c15;
 pub mod c16;
+pub mod c17;
 pub mod c18;
 pub mod c20;
 pub mod idxc;
@@ -44,7 +49,7 @@ pub struct PropDef {
 
 pub fn props() -> Vec<PropDef> {
     vec![
-        c01::DEF, c02::DEF, c03::DEF, idxc::C05, c08::DEF, c09::DEF, c10::DEF, c11::DEF, c12::DEF, c13::DEF, c14::DEF, c16::DEF, c18::DEF,
+        c01::DEF, c02::DEF, c03::DEF, c04::DEF, idxc::C05, c06::DEF, c07::DEF, c08::DEF, c09::DEF, c10::DEF, c11::DEF, c12::DEF, c13::DEF, c14::DEF, c15::DEF, c16::DEF, c17::DEF, c18::DEF,
         idxc::C19, c20::DEF,
     ]
 }
@@ -54,6 +59,7 @@ pub fn dispatch<E: Entry>(prop: &str, ctx: &mut Ctx) {
     match prop {
         "C01" => c01::run::<E>(ctx),
         "C02" => c02::run::<E>(ctx),
+        "C04" => c04::run::<E>(ctx),
         "C08" => c08::run::<E>(ctx),
         "C09" => c09::run::<E>(ctx),
         "C10" => c10::run::<E>(ctx),
@@ -62,6 +68,7 @@ pub fn dispatch<E: Entry>(prop: &str, ctx: &mut Ctx) {
         "C13" => c13::run::<E>(ctx),
         "C14" => c14::run::<E>(ctx),
         "C16" => c16::run::<E>(ctx),
+        "C17" => c17::run::<E>(ctx),
         "C18" => c18::run::<E>(ctx),
         "C20" => c20::run::<E>(ctx),
         _ => panic!("harness: no region-level monitor for {prop}"),
@@ -78,6 +85,7 @@ pub fn dispatch_stack<E: Entry, S: IdxC<Idx<E>>>(prop: &str, ctx: &mut Ctx) {
         "C10" => c10::run_stack::<E, S>(ctx),
         "C13" => c13::run_stack::<E, S>(ctx),
         "C16" => c16::run_stack::<E, S>(ctx),
+        "C17" => c17::run_stack::<E, S>(ctx),
         "C18" => c18::run_stack::<E, S>(ctx),
         "C20" => c20::run_stack::<E, S>(ctx),
         "C19" => idxc::run_stack_share::<E, S>(ctx),
@@ -121,6 +129,6 @@ pub fn stack_jobs(plan: &Plan, prop: &'static str, what: &str, n: u64, filter: i
     out
 }
 
-pub fn standalone(entry: &str, what: &str, hist_no: u64, f: fn(&mut Ctx)) -> Job {
+pub fn standalone(entry: &str, what: &str, hist_no: u64, f: impl Fn(&mut Ctx) + Send + Sync + 'static) -> Job {
     Job { entry: entry.to_string(), what: what.to_string(), hist_no, f: Box::new(f) }
 }
